@@ -391,6 +391,13 @@ func odtTable(t *ltable, idx *int, auto, named map[string]bool) *Node {
 			tbl.Add(odtGroup("table:table-column-group", cols[1:]))
 		}
 		tbl.Add(rows...)
+	case 6: // the rows laid out by the drawn plan (structure.go): header rows also after other rows
+		tbl.Add(cols...)
+		if laid := odtPlanRows(t.Plan, rows); laid != nil {
+			tbl.Add(laid...)
+		} else {
+			tbl.Add(rows...)
+		}
 	default:
 		tbl.Add(cols...)
 		tbl.Add(rows...)
@@ -401,7 +408,9 @@ func odtTable(t *ltable, idx *int, auto, named map[string]bool) *Node {
 // drawGroups gives the table (and its nested tables) a grouping of rows / columns.
 func drawGroups(r *hx.Rng, t *ltable) {
 	if r.Chance(2, 5) {
-		t.Groups = r.Range(1, 5)
+		if g := r.Range(1, 5); t.Plan == nil { // a drawn row plan (Groups 6) stays
+			t.Groups = g
+		}
 	}
 	for _, c := range t.Cells {
 		if c.Nested != nil {
